@@ -299,9 +299,10 @@ bool World::op_net(std::string const& ctx, toks const& op)
 			auto st = N.tcp.find(op.at(1));
 			if (st == N.tcp.end() || !st->second) { res("skipped"); return true; }
 			std::string h = op.at(2);
-			auto& pe = N.peer_ep[name];
-			pe.reset(new ip::tcp::endpoint());
-			ip::tcp::endpoint* pep = pe.get();
+			// the endpoint out-parameter is owned by the handler: a second accept_ep
+			// issued while this one is pending aborts it, and the aborted handler
+			// still prints the endpoint
+			auto pep = std::make_shared<ip::tcp::endpoint>();
 			{
 				api_scope2 g(*this);
 				a.async_accept(*st->second, *pep, [this, h, pep](error_code const& e)
